@@ -334,8 +334,8 @@ where
                 value_text.push_str(&self.radix_run(10));
             }
 
-            // 1e6 for example:
-            if let Some('e' | 'E') = self.window[0] {
+            // 1e6 for example (only when digits follow, so that `1.else` is `1.` then `else`):
+            if self.at_exponent() {
                 if self.window[1] == Some('_') {
                     return Err(LexicalError {
                         error: LexicalErrorType::OtherError("Invalid Syntax".to_owned()),
